@@ -536,152 +536,250 @@ func checkJSONReader(c *core.Ctx) {
 	c.Decide(nBytes >= 1 && badBytes == "", "SCANBUF", key, scan.Pos(), nBytes, "sc.Bytes() only measured or copied",
 		fmt.Sprintf("the scanner reuses its buffer: sc.Bytes() must be copied before it is queued for the workers (use at %s keeps the scanner's own slice)", badBytes))
 
-	// the job variable: the one appended to with the line counter
-	var lineCounter types.Object
-	var jobLines string // e.g. "job.lines"
-	for _, s := range scan.Body.List {
-		as, ok := s.(*ast.AssignStmt)
-		if !ok || len(as.Rhs) != 1 {
-			continue
-		}
-		call, ok := as.Rhs[0].(*ast.CallExpr)
-		if !ok || core.ExprStr(call.Fun) != "append" || len(call.Args) != 2 {
-			continue
-		}
-		if id, ok := call.Args[1].(*ast.Ident); ok {
-			if b, ok := info.TypeOf(id).Underlying().(*types.Basic); ok && b.Kind() == types.Int && core.ExprStr(as.Lhs[0]) == core.ExprStr(call.Args[0]) {
-				lineCounter = info.ObjectOf(id)
-				jobLines = core.ExprStr(as.Lhs[0])
-			}
-		}
+	// BATCH: the reader is interpreted in three pieces — one iteration of the scan loop with the batch becoming full /
+	// not full, and the statements after the loop with a non-empty / empty last batch. The select statements fork into
+	// their arms. What is observed: sends of a job (a value of the job type) to the workers, the select arm they sit
+	// in, the count of lines read, the job variable being replaced by a fresh job, the send on the done channel.
+	// Helpers (closures or functions) the reader hands the work to are followed.
+	isJobType := func(t types.Type) bool {
+		n, ok := t.(*types.Named)
+		return ok && n.Obj().Name() == "jobIn"
 	}
-	if lineCounter == nil {
-		c.Unknown("BATCH", key, scan.Pos(), "no `job.lines = append(job.lines, line)` found in the scan loop")
+	// the job variable of the reader: the local of the job type declared directly in the reader
+	var jobObj types.Object
+	for _, st := range reader.Body.List {
+		ast.Inspect(st, func(n ast.Node) bool {
+			if _, isLit := n.(*ast.FuncLit); isLit {
+				return false
+			}
+			if id, ok := n.(*ast.Ident); ok && jobObj == nil {
+				if o := info.Defs[id]; o != nil && isJobType(o.Type()) {
+					jobObj = o
+				}
+			}
+			return true
+		})
+	}
+	if jobObj == nil {
+		c.Unknown("BATCH", key, scan.Pos(), "the reader declares no variable of the job type")
 		return
 	}
-	direct, nested := countIncrements(scan.Body.List, lineCounter, info)
-	c.Decide(direct == 1 && nested == 0, "BATCH", key+"/line counter", scan.Pos(), 1, "advances once per scanned line",
-		fmt.Sprintf("the line number must advance exactly once per scanned line (unconditional increments=%d, conditional=%d): the consumer files results by this number", direct, nested))
-
-	// sends: every send on the work channel sits in a select arm that took a token, and is followed by the count
-	jobVar := strings.SplitN(jobLines, ".", 2)[0]
-	type sendInfo struct {
-		pos            token.Pos
-		tokenArm       bool
-		counted        bool
-		inScan, inTail bool
-	}
-	var sends []sendInfo
-	core.WalkStack(reader.Body, func(nd ast.Node, stack []ast.Node) bool {
-		ss, ok := nd.(*ast.SendStmt)
-		if !ok || core.ExprStr(ss.Value) != jobVar {
-			return true
+	jobVar := jobObj.Name()
+	lenAtom := func(atom string, full bool) (bool, bool) {
+		// (A op B) with len(…) on one side: the batch's length against its capacity, or against zero
+		m := regexp.MustCompile(`^\((.*) (==|<|<=) (.*)\)$`).FindStringSubmatch(atom)
+		if m == nil {
+			return false, false
 		}
-		si := sendInfo{pos: ss.Pos()}
-		for i := len(stack) - 1; i >= 0; i-- {
-			if cc, ok := stack[i].(*ast.CommClause); ok {
-				if comm, ok := cc.Comm.(*ast.SendStmt); ok && strings.Contains(strings.ToLower(core.ExprStr(comm.Chan)), "token") {
-					si.tokenArm = true
-				}
-				after := false
-				for _, s := range cc.Body {
-					if s == ast.Stmt(ss) {
-						after = true
-						continue
+		lLeft, lRight := strings.HasPrefix(m[1], "len("), strings.HasPrefix(m[3], "len(")
+		if lLeft == lRight {
+			return false, false
+		}
+		// full / non-empty: the length equals the bound it is compared with from below (len == size, 0 < len);
+		// otherwise it is strictly on the small side (len < size, len == 0)
+		other := m[3]
+		if lRight {
+			other = m[1]
+		}
+		zero := other == "0"
+		switch {
+		case zero && lRight: // (0 op len)
+			switch m[2] {
+			case "==":
+				return !full, true
+			case "<":
+				return full, true
+			default:
+				return true, true
+			}
+		case zero: // (len op 0)
+			switch m[2] {
+			case "==", "<=":
+				return !full, true
+			default:
+				return false, true
+			}
+		case lLeft: // (len op size)
+			switch m[2] {
+			case "==":
+				return full, true
+			case "<":
+				return !full, true
+			default:
+				return true, true
+			}
+		default: // (size op len)
+			switch m[2] {
+			case "==", "<=":
+				return full, true
+			default:
+				return false, true
+			}
+		}
+	}
+	type piece struct {
+		name  string
+		block *ast.BlockStmt
+		full  bool
+	}
+	iter := &ast.BlockStmt{List: append([]ast.Stmt{}, scan.Body.List...)}
+	if scan.Post != nil {
+		iter.List = append(iter.List, scan.Post)
+	}
+	tail := &ast.BlockStmt{}
+	for _, st := range reader.Body.List {
+		if st.Pos() > scan.End() {
+			tail.List = append(tail.List, st)
+		}
+	}
+	var counterName string
+	sendsBad, batchBad, doneBad, counterBad := "", "", "", ""
+	nSends, nPaths := 0, 0
+	doneSeen := false
+	for _, pc := range []piece{{"iteration, batch full", iter, true}, {"iteration, batch not full", iter, false}, {"after the loop, lines left", tail, true}, {"after the loop, nothing left", tail, false}} {
+		pc := pc
+		in := newInterp(p, fn)
+		in.MaxPaths = 4000
+		in.Hooks.Cond = func(st *absint.State, atom string) (bool, bool) { return lenAtom(atom, pc.full) }
+		in.Hooks.Store = func(st *absint.State, obj types.Object, v absint.Val) {
+			if v == nil {
+				return
+			}
+			switch {
+			case obj == jobObj:
+				st.Emit("JOBSET", token.NoPos, v)
+			case obj.Pos() < reader.Pos() || obj.Pos() > reader.End():
+				// a variable of the enclosing function written by the reader: the count of lines read
+				st.Emit("COUNT "+obj.Name(), token.NoPos, v)
+			default:
+				st.Emit("LOCAL "+obj.Name(), token.NoPos, v)
+			}
+		}
+		in.Hooks.Call = chainCall(func(st *absint.State, call *ast.CallExpr, callee string, recv absint.Val, args []absint.Val) (absint.Val, bool) {
+			switch callee {
+			case "bufio.(*Scanner).Err":
+				return absint.S("SCANNER-ERR"), true
+			case "bufio.(*Scanner).Bytes":
+				return absint.S("SCANNED-BYTES"), true
+			}
+			return nil, false
+		}, errorfHook)
+		outs, err := in.Run(&ast.FuncType{Params: &ast.FieldList{}}, nil, pc.block, nil, "")
+		if err != nil {
+			c.Unknown("BATCH", key+"/"+pc.name, scan.Pos(), err.Error())
+			return
+		}
+		for _, o := range outs {
+			nPaths++
+			arm := "" // the select arm the path is in: "send", "recv", "default" or ""
+			workSends := 0
+			counted, fresh := false, false
+			var lastLocal = map[string]string{}
+			for _, e := range o.Events {
+				switch {
+				case strings.HasPrefix(e.Name, "select "):
+					cm := strings.TrimPrefix(e.Name, "select ")
+					switch {
+					case cm == "default":
+						arm = "default"
+					case strings.Contains(cm, "<-") && !strings.HasPrefix(strings.TrimSpace(cm), "<-") && !strings.Contains(cm, "= <-") && !strings.Contains(cm, ":= <-"):
+						arm = "send"
+					default:
+						arm = "recv"
 					}
-					if as, ok := s.(*ast.AssignStmt); ok && after && as.Tok == token.ADD_ASSIGN && len(as.Rhs) == 1 && core.ExprStr(as.Rhs[0]) == "len("+jobLines+")" {
-						si.counted = true
-					}
-				}
-				break
-			}
-		}
-		for _, s := range stack {
-			if s == ast.Node(scan) {
-				si.inScan = true
-			}
-		}
-		si.inTail = !si.inScan && ss.Pos() > scan.End()
-		sends = append(sends, si)
-		return true
-	})
-	bad := ""
-	scanSend, tailSend := 0, 0
-	for _, s := range sends {
-		if !s.tokenArm {
-			bad = fmt.Sprintf("%s: a job is handed to the workers outside the select arm that reserves an output token (the pool can lock up)", p.Pos(s.pos))
-		}
-		if !s.counted {
-			bad = fmt.Sprintf("%s: a job is handed to the workers without adding len(%s) to the count of lines read: the consumer stops before these lines are produced", p.Pos(s.pos), jobLines)
-		}
-		if s.inScan {
-			scanSend++
-		}
-		if s.inTail {
-			tailSend++
-		}
-	}
-	if bad == "" && (scanSend != 1 || tailSend != 1) {
-		bad = fmt.Sprintf("expected one send of a full batch inside the scan loop and one flush of the partial last batch after it (found %d and %d): the last lines of the file would be lost", scanSend, tailSend)
-	}
-	c.Decide(bad == "", "BATCH", key+"/sends", reader.Pos(), len(sends), "token, send, count — in the loop and for the tail batch", bad)
-
-	// the tail flush is guarded by len(job.lines) > 0 and nothing else; a fresh job follows the in-loop send
-	tailGuard, fresh := false, false
-	for _, s := range reader.Body.List {
-		if is, ok := s.(*ast.IfStmt); ok && is.Pos() > scan.End() {
-			cs := core.ExprStr(is.Cond)
-			if cs == "len("+jobLines+") > 0" || cs == "len("+jobLines+") != 0" || cs == "0 < len("+jobLines+")" {
-				tailGuard = true
-			}
-		}
-	}
-	ast.Inspect(scan.Body, func(n ast.Node) bool {
-		is, ok := n.(*ast.IfStmt)
-		if !ok {
-			return true
-		}
-		cs := core.ExprStr(is.Cond)
-		if !strings.HasPrefix(cs, "len("+jobLines+") ==") && !strings.HasPrefix(cs, "len("+jobLines+") >=") {
-			return true
-		}
-		sent := false
-		for _, s := range is.Body.List {
-			ast.Inspect(s, func(m ast.Node) bool {
-				if ss, ok := m.(*ast.SendStmt); ok && core.ExprStr(ss.Value) == jobVar {
-					sent = true
-				}
-				return true
-			})
-			if as, ok := s.(*ast.AssignStmt); ok && sent && len(as.Lhs) == 1 && core.ExprStr(as.Lhs[0]) == jobVar {
-				if cl, ok := as.Rhs[0].(*ast.CompositeLit); ok {
-					// fresh slices: make(…, 0, n)
-					okSlices := 0
-					for _, el := range cl.Elts {
-						if kv, ok := el.(*ast.KeyValueExpr); ok {
-							if mk, ok := kv.Value.(*ast.CallExpr); ok && core.ExprStr(mk.Fun) == "make" && len(mk.Args) == 3 && core.ExprStr(mk.Args[1]) == "0" {
-								okSlices++
-							}
+				case strings.HasPrefix(e.Name, "send ") && len(e.Args) == 1:
+					v := e.Args[0].Canon()
+					switch {
+					case v == jobVar || strings.HasPrefix(v, "{"+jobVar) || o.Field(e.Args[0], "lines") != nil || v == "job":
+						workSends++
+						nSends++
+						if arm != "send" {
+							sendsBad = fmt.Sprintf("%s: a job is handed to the workers outside the select arm that reserves an output token (the pool can lock up)", pc.name)
+						}
+					case v == "SCANNER-ERR":
+						doneSeen = true
+						if workSends == 0 && pc.block == tail && pc.full && arm != "recv" {
+							doneBad = "done is signalled although the last batch was not handed to the workers"
 						}
 					}
-					fresh = okSlices == 2
+				case strings.HasPrefix(e.Name, "COUNT ") && workSends > 0:
+					if strings.Contains(e.Args[0].Canon(), "len(") {
+						counted = true
+					}
+				case e.Name == "JOBSET" && workSends > 0:
+					// a fresh job: its line and data slices are made empty
+					fresh = true
+					for _, f := range []string{"lines", "data"} {
+						fv := o.Field(e.Args[0], f)
+						if fv == nil || !strings.HasPrefix(fv.Canon(), "make@") {
+							fresh = false
+							continue
+						}
+						okMake := false
+						for _, e2 := range o.Events {
+							if e2.Name == "make" && fmt.Sprintf("make@%d", e2.Pos) == fv.Canon() && len(e2.Args) >= 2 && e2.Args[1].Canon() == "0" {
+								okMake = true
+							}
+						}
+						if !okMake {
+							fresh = false
+						}
+					}
+				case strings.HasPrefix(e.Name, "LOCAL "):
+					lastLocal[strings.TrimPrefix(e.Name, "LOCAL ")] = e.Args[0].Canon()
+				case strings.HasPrefix(e.Name, "append "+jobVar+".") && pc.block == iter && len(e.Args) == 1:
+					// the line number filed with the line: a plain counter variable
+					if a := e.Args[0].Canon(); regexp.MustCompile(`^\w+$`).MatchString(a) && !strings.HasPrefix(a, "make") && counterName == "" {
+						if t := strings.TrimPrefix(e.Name, "append "+jobVar+"."); t == "lines" {
+							counterName = a
+						}
+					}
+				}
+			}
+			cancelled := arm == "recv" || arm == "default"
+			switch {
+			case pc.full && !cancelled && workSends != 1:
+				sendsBad = fmt.Sprintf("%s: the batch must be handed to the workers exactly once (%d sends): the lines would be lost", pc.name, workSends)
+			case pc.full && !cancelled && !counted:
+				sendsBad = fmt.Sprintf("%s: a job is handed to the workers without adding the number of its lines to the count of lines read: the consumer stops before these lines are produced", pc.name)
+			case pc.full && cancelled && (workSends != 0 || o.Kind != "return"):
+				sendsBad = fmt.Sprintf("%s: when the run is cancelled the reader must stop without handing the job over", pc.name)
+			case !pc.full && workSends != 0:
+				batchBad = fmt.Sprintf("%s: a job is handed to the workers (%d sends)", pc.name, workSends)
+			}
+			if pc.block == iter && pc.full && !cancelled && !fresh {
+				batchBad = "after a full batch is sent a fresh job with empty line/data slices must be started"
+			}
+			if pc.block == iter && o.Kind != "return" && counterName != "" {
+				if v := lastLocal[counterName]; v != "("+counterName+" + 1)" && v != "(1 + "+counterName+")" {
+					counterBad = fmt.Sprintf("%s: after a scanned line the line number is %q", pc.name, v)
+				}
+			}
+			if pc.block == tail && o.Kind != "return" || (pc.block == tail && !cancelled) {
+				// the path that runs to the end reports the scanner's error last
+				last := ""
+				for _, e := range o.Events {
+					if strings.HasPrefix(e.Name, "send ") && len(e.Args) == 1 {
+						last = e.Args[0].Canon()
+					}
+				}
+				if last != "SCANNER-ERR" {
+					doneBad = "the reader must end by reporting the scanner's error on the done channel, after the last batch was sent"
 				}
 			}
 		}
-		return true
-	})
-	c.Decide(tailGuard && fresh, "BATCH", key+"/batches", reader.Pos(), 2, "fresh job after a full batch; tail flushed iff non-empty",
-		fmt.Sprintf("after a full batch is sent a fresh job with empty line/data slices must be started, and after the loop the partial batch must be flushed iff it is non-empty (fresh job=%v, tail guard=%v)", fresh, tailGuard))
-
-	// done <- sc.Err() is the last statement
-	last := reader.Body.List[len(reader.Body.List)-1]
-	doneOK := false
-	if ss, ok := last.(*ast.SendStmt); ok {
-		if call, ok := ss.Value.(*ast.CallExpr); ok && p.CalleeName(info, call) == "bufio.(*Scanner).Err" {
-			doneOK = true
-		}
 	}
-	c.Decide(doneOK, "BATCH", key+"/done", last.Pos(), 1, "done receives sc.Err() after the last batch", "the reader must end by reporting the scanner's error on the done channel, after the last batch was sent")
+	if counterName == "" && counterBad == "" {
+		counterBad = "the line number filed with each line is not a counter variable"
+	}
+	if !doneSeen && doneBad == "" {
+		doneBad = "the scanner's error is never reported"
+	}
+	c.Decide(counterBad == "", "BATCH", key+"/line counter", scan.Pos(), nPaths, "advances once per scanned line",
+		"the line number must advance exactly once per scanned line: the consumer files results by this number; "+counterBad)
+	c.Decide(sendsBad == "", "BATCH", key+"/sends", reader.Pos(), nSends, "token, send, count — in the loop and for the tail batch", sendsBad)
+	c.Decide(batchBad == "", "BATCH", key+"/batches", reader.Pos(), nPaths, "fresh job after a full batch; tail flushed iff non-empty", batchBad)
+	c.Decide(doneBad == "", "BATCH", key+"/done", reader.Pos(), 1, "done receives sc.Err() after the last batch", doneBad)
 }
 
 // ---------------------------------------------------------------- json consumer
@@ -847,82 +945,170 @@ func checkJSONConsumer(c *core.Ctx) {
 		c.Unknown("REORDER", key+"/termination", resLoop.Pos(), "the result loop is not inside a select")
 		return
 	}
-	termCount, tokenRelease, doneFlag := 0, 0, ""
-	badTerm := ""
+	// The select is interpreted arm by arm (each arm is a path), for the reader-done flag true / false on entry and
+	// the start index equal / not equal to the number of lines read. The produce loop may be left (break to its label)
+	// only on a path on which the flag is true — initially, or because this arm received a nil error from the done
+	// channel — and everything read was produced; and on such a path it must be left. Names come from the code: the
+	// done channel is the one the reader reports the scanner's error on, the token channel the one it sends on in its
+	// select, the flag the variable the done arm sets to true.
+	doneCh, tokenCh := "", ""
+	for _, l := range goLits(fn.Decl.Body) {
+		ast.Inspect(l.Body, func(n ast.Node) bool {
+			switch x := n.(type) {
+			case *ast.SendStmt:
+				if call, ok := x.Value.(*ast.CallExpr); ok && p.CalleeName(info, call) == "bufio.(*Scanner).Err" {
+					doneCh = core.ExprStr(x.Chan)
+				}
+			case *ast.CommClause:
+				if ss, ok := x.Comm.(*ast.SendStmt); ok {
+					tokenCh = core.ExprStr(ss.Chan)
+				}
+			}
+			return true
+		})
+	}
+	var doneArm, resArm *ast.CommClause
 	for _, cl := range sel.Body.List {
 		cc := cl.(*ast.CommClause)
-		isRes := false
+		if cc.Comm != nil && doneCh != "" && strings.Contains(core.FullStr(cc.Comm), "<-"+doneCh) {
+			doneArm = cc
+		}
 		ast.Inspect(cc, func(n ast.Node) bool {
 			if n == ast.Node(resLoop) {
-				isRes = true
+				resArm = cc
 			}
 			return true
 		})
-		for i, s := range cc.Body {
-			if es, ok := s.(*ast.ExprStmt); ok && isRes && i == 0 {
-				if ue, ok := es.X.(*ast.UnaryExpr); ok && ue.Op == token.ARROW && strings.Contains(strings.ToLower(core.ExprStr(ue.X)), "token") {
-					tokenRelease++
+	}
+	var flagObj types.Object
+	if doneArm != nil {
+		for _, st := range doneArm.Body {
+			if as, ok := st.(*ast.AssignStmt); ok && as.Tok == token.ASSIGN && len(as.Lhs) == 1 && len(as.Rhs) == 1 && core.ExprStr(as.Rhs[0]) == "true" {
+				if id, ok := as.Lhs[0].(*ast.Ident); ok {
+					flagObj = info.ObjectOf(id)
 				}
-			}
-			if is, ok := s.(*ast.IfStmt); ok {
-				brk := false
-				for _, b := range is.Body.List {
-					if bs, ok := b.(*ast.BranchStmt); ok && bs.Tok == token.BREAK && bs.Label != nil {
-						brk = true
-					}
-				}
-				if !brk {
-					continue
-				}
-				be, ok := is.Cond.(*ast.BinaryExpr)
-				if !ok || be.Op != token.LAND {
-					badTerm = fmt.Sprintf("%s: the loop is left on `%s`", p.Pos(is.Pos()), core.ExprStr(is.Cond))
-					continue
-				}
-				flag, ok1 := be.X.(*ast.Ident)
-				cmp, ok2 := be.Y.(*ast.BinaryExpr)
-				if !ok1 || !ok2 || cmp.Op != token.EQL {
-					badTerm = fmt.Sprintf("%s: the loop is left on `%s`; it must test the reader-done flag first and then %s == <lines read>", p.Pos(is.Pos()), core.ExprStr(is.Cond), sName)
-					continue
-				}
-				l, r := core.ExprStr(cmp.X), core.ExprStr(cmp.Y)
-				if !((l == sName && strings.Contains(strings.ToLower(r), "linesread")) || (r == sName && strings.Contains(strings.ToLower(l), "linesread"))) {
-					badTerm = fmt.Sprintf("%s: the loop is left on `%s`; everything read must have been produced (%s == linesRead)", p.Pos(is.Pos()), core.ExprStr(is.Cond), sName)
-					continue
-				}
-				doneFlag = flag.Name
-				termCount++
 			}
 		}
 	}
-	// the flag is set only in the arm that received a nil error from done
-	flagOK := false
-	if doneFlag != "" {
-		sets := 0
-		core.WalkStack(fn.Decl.Body, func(nd ast.Node, stack []ast.Node) bool {
-			as, ok := nd.(*ast.AssignStmt)
-			if !ok || len(as.Lhs) != 1 || core.ExprStr(as.Lhs[0]) != doneFlag || as.Tok != token.ASSIGN {
-				return true
+	if doneArm == nil || resArm == nil || flagObj == nil || tokenCh == "" {
+		c.Unknown("REORDER", key+"/termination", sel.Pos(), fmt.Sprintf("the arms of the consumer's select could not be identified (done channel %q, token channel %q, result arm %v, done flag %v)", doneCh, tokenCh, resArm != nil, flagObj != nil))
+		return
+	}
+	// the flag is written nowhere else
+	badTerm := ""
+	ast.Inspect(fn.Decl.Body, func(n ast.Node) bool {
+		if as, ok := n.(*ast.AssignStmt); ok && as.Tok == token.ASSIGN {
+			for _, l := range as.Lhs {
+				if id, ok := l.(*ast.Ident); ok && info.ObjectOf(id) == flagObj && (as.Pos() < doneArm.Pos() || as.Pos() > doneArm.End()) {
+					badTerm = fmt.Sprintf("%s: the reader-done flag is set outside the arm that receives from the done channel", p.Pos(as.Pos()))
+				}
 			}
-			sets++
-			for i := len(stack) - 1; i >= 0; i-- {
-				if cc, ok := stack[i].(*ast.CommClause); ok {
-					if cc.Comm != nil && strings.Contains(core.ExprStr(cc.Comm), "<-done") && core.ExprStr(as.Rhs[0]) == "true" {
-						flagOK = true
+		}
+		return true
+	})
+	var linesObj types.Object
+	for _, l := range goLits(fn.Decl.Body) {
+		ast.Inspect(l.Body, func(nd ast.Node) bool {
+			if as, ok := nd.(*ast.AssignStmt); ok && as.Tok == token.ADD_ASSIGN && len(as.Lhs) == 1 {
+				if id, ok := as.Lhs[0].(*ast.Ident); ok {
+					if v, ok := info.ObjectOf(id).(*types.Var); ok && (v.Pos() < l.Pos() || v.Pos() > l.End()) {
+						linesObj = v
 					}
-					break
 				}
 			}
 			return true
 		})
-		if sets != 1 {
-			flagOK = false
+	}
+	termPaths, tokenPaths := 0, 0
+	for _, flagIn := range []bool{false, true} {
+		for _, allProduced := range []bool{false, true} {
+			if badTerm != "" || linesObj == nil {
+				break
+			}
+			flagIn, allProduced := flagIn, allProduced
+			in := newInterp(p, fn)
+			in.MaxPaths = 6000
+			in.Hooks.Ident = func(st *absint.State, obj types.Object) (absint.Val, bool) {
+				if obj == flagObj {
+					return absint.Bool(flagIn), true
+				}
+				return nil, false
+			}
+			in.Hooks.Loop = func(st *absint.State, loop ast.Stmt) *absint.LoopSpec {
+				return &absint.LoopSpec{Cases: []string{"r"}, MaxIter: 1, RefStep: func(ref, cs string) string { return ref }}
+			}
+			eqAtom := func(atom string) bool {
+				return strings.Contains(atom, " == ") && mentions(atom, sName) && mentions(atom, linesObj.Name())
+			}
+			in.Hooks.Cond = func(st *absint.State, atom string) (bool, bool) {
+				if eqAtom(atom) {
+					st.Emit("TESTED", token.NoPos)
+					return allProduced, true
+				}
+				return false, false
+			}
+			in.Hooks.Call = chainCall(func(st *absint.State, call *ast.CallExpr, callee string, recv absint.Val, args []absint.Val) (absint.Val, bool) {
+				if callee == "value:produce" {
+					return absint.Nil{}, true
+				}
+				return nil, false
+			}, errorfHook)
+			outs, err := in.Run(&ast.FuncType{Params: &ast.FieldList{}, Results: fn.Decl.Type.Results}, nil, &ast.BlockStmt{List: []ast.Stmt{sel}}, nil, "")
+			if err != nil {
+				c.Unknown("REORDER", key+"/termination", sel.Pos(), err.Error())
+				return
+			}
+			for _, o := range outs {
+				arm := ""
+				tokens := 0
+				for _, e := range o.Events {
+					if strings.HasPrefix(e.Name, "select ") && arm == "" {
+						arm = strings.TrimPrefix(e.Name, "select ")
+					}
+					if e.Name == "recv "+tokenCh {
+						tokens++
+					}
+				}
+				inDone := strings.Contains(arm, "<-"+doneCh)
+				inRes := !inDone && resArm.Comm != nil && arm == core.FullStr(resArm.Comm)
+				if !inDone && !inRes {
+					continue
+				}
+				termPaths++
+				flagNow := flagIn
+				if v, ok := o.Env[flagObj.Name()]; ok && v != nil {
+					if absint.IsTrue(v) {
+						flagNow = true
+					} else if absint.IsFalse(v) {
+						flagNow = false
+					}
+				}
+				left := o.Kind == "break" && o.Label != ""
+				what := fmt.Sprintf("arm `%s`, reader done on entry=%v, everything read produced=%v", arm, flagIn, allProduced)
+				switch {
+				case o.Kind == "return":
+					// an error (of a line, of the reader, of produce) ends the run
+				case left && !(flagNow && allProduced):
+					badTerm = "the produce loop is left although " + map[bool]string{true: "not every line read was produced", false: "the reader is not known to be done"}[flagNow] + " (" + what + ")"
+				case !left && flagNow && allProduced:
+					badTerm = "the reader is done and every line read was produced, yet the produce loop goes on: nothing will wake it (" + what + ")"
+				}
+				if inRes && o.Kind != "return" {
+					tokenPaths++
+					if tokens != 1 {
+						badTerm = fmt.Sprintf("one output token must be released per result batch (%d released; %s)", tokens, what)
+					}
+				}
+				if inDone && o.Kind != "return" && !flagNow {
+					badTerm = "after a nil error from the done channel the reader-done flag must be set (" + what + ")"
+				}
+			}
 		}
 	}
-	if badTerm == "" && (termCount != 2 || !flagOK || tokenRelease != 1) {
-		badTerm = fmt.Sprintf("the produce loop must end only when the reader is done and every line read was produced, tested after each result batch and after the reader finished (tests=%d, want 2), with the flag set only on a nil reader error (%v) and one token released per result batch (%d)", termCount, flagOK, tokenRelease)
+	if badTerm == "" && (termPaths == 0 || tokenPaths == 0) {
+		badTerm = "the result arm and the done arm of the consumer's select were not explored"
 	}
-	c.Decide(badTerm == "", "REORDER", key+"/termination", sel.Pos(), termCount+tokenRelease, "done && startIndex == linesRead in both arms; token released per batch", badTerm)
+	c.Decide(badTerm == "", "REORDER", key+"/termination", sel.Pos(), termPaths, "done && startIndex == linesRead in both arms; token released per batch", badTerm)
 }
 
 // ---------------------------------------------------------------- stdin
